@@ -1,5 +1,5 @@
 """C01 assess is the joint log density; simulate samples from it (structural clauses, DESIGN §4-C01)."""
-from . import gfi
+from . import lints, gfi
 
 EXPLANATION = ("ALG/ROLE/SIB/GUARD rules over the simulate and assess paths of the five GFI implementors, the Simulate/Assess "
                "handlers, CondTr accessors and merge polarity: every returned score/density/retval/argument term is compared, as a "
@@ -23,6 +23,12 @@ def combs(ctx):
         gfi.cond_rule(ctx, m)
 
 
-RULES = [gfi.dist_simulate, gfi.dist_assess, gfi.collision_helpers, handlers, fns, gfi.handler_stack_ownership, combs,
+
+def trc(ctx):
+    lints.trc_lint(ctx, ["genjax.core.Distribution", "genjax.core.Fn", "genjax.core.Vmap", "genjax.core.Scan", "genjax.core.Cond", "genjax.core.CondTr",
+                         "genjax.core.Tr", "genjax.core.ScanTr", "genjax.core.Simulate", "genjax.core.Assess", "genjax.core.Generate", "genjax.core.Update", "genjax.core.Regenerate"])
+
+
+RULES = [trc, gfi.dist_simulate, gfi.dist_assess, gfi.collision_helpers, handlers, fns, gfi.handler_stack_ownership, combs,
          gfi.cond_trace_rules, gfi.trace_accessors, gfi.merge_polarity, gfi.vmap_kwargs_sig]
 FLOOR = 20
